@@ -1061,6 +1061,61 @@ def implicit_clause(vals, integrator, n, neq, clause=None):
                 ok = False
                 break
             qm, qn = qn, qp
+    if neq > 1 and not _implicit_system_clause(integrator):
+        ok = False
+    return ok
+
+
+def _implicit_system_clause(integrator):
+    """systems (neq > 1): three steps of an implicit integrator on 1-D Euler (hlle, extrapol1, periodic, smooth subsonic state)
+    against a dense solve of the linearised backward-Euler / Crank-Nicolson / BDF2 system with the replay's own central-difference
+    Jacobian and its own unknown ordering; tolerance 1e-4 |dQ| (linearisation and finite-difference errors are ~1e-7)"""
+    import flowdyn.mesh as mesh, flowdyn.modeldisc as md, flowdyn.modelphy.euler as eu, flowdyn.xnum as xnum
+    import flowdyn.integration as ti, flowdyn.field as field
+    n = 8
+    msh = mesh.unimesh(ncell=n, length=1.0)
+    model = eu.euler1d()
+    disc = md.fvm1d(model, msh, xnum.extrapol1(), numflux="hlle")
+    xc = msh.centers()
+    P = [1 + 0.05 * np.sin(2 * np.pi * xc), 0.3 + 0.02 * np.cos(2 * np.pi * xc), 1 + 0.05 * np.sin(2 * np.pi * xc + 1)]
+    f = field.fdata(model, msh, model.prim2cons(P))
+    s = getattr(ti, integrator)(msh, disc)
+    dt = 0.02
+
+    def R(Qflat):
+        Q = [Qflat[k * n:(k + 1) * n].copy() for k in range(3)]
+        r = disc.rhs(field.fdata(model, msh, Q))
+        return np.concatenate([np.asarray(x, float) for x in r])
+
+    def J(Qflat):
+        m = Qflat.size
+        Jm = np.zeros((m, m))
+        for j in range(m):
+            h = 1e-6 * max(1.0, abs(Qflat[j]))
+            e = np.zeros(m); e[j] = h
+            Jm[:, j] = (R(Qflat + e) - R(Qflat - e)) / (2 * h)
+        return Jm
+    flat = lambda fld: np.concatenate([np.asarray(x, float) for x in fld.data])
+    I = np.eye(3 * n)
+    qprev = None
+    ok = True
+    for k in range(1, 4):
+        q = flat(f)
+        Jm, r = J(q), R(q)
+        if integrator in ("implicit", "backwardeuler"):
+            dq = np.linalg.solve(I / dt - Jm, r)
+        elif integrator == "gear" and qprev is not None:
+            dq = np.linalg.solve(1.5 * I / dt - Jm, r + 0.5 * (q - qprev) / dt)
+        else:
+            dq = np.linalg.solve(I / dt - 0.5 * Jm, r)
+        s.step(f, dt)
+        got = flat(f) - q
+        e = float(np.max(np.abs(got - dq)) / np.max(np.abs(dq)))
+        if e > 1e-4:
+            show(integrator=integrator, model="euler1d", step=k, relative_deviation_of_the_increment=e)
+            ok = False
+            break
+        qprev = q
     return ok
 
 
